@@ -11,7 +11,7 @@ from ..core import gq, gbool, glist
 
 ID = "C18"
 PROPS_FILE = "props/C18.v"
-MODEL_FILES = ["Homotopy", "HomotopySpec"]
+MODEL_FILES = ["Homotopy", "HomotopySpec", "HomotopyGp"]
 RULE = ("exhaustive success/failure scripts of the inner solves (all boolean sequences up to the "
         "tier's length) x a grid of (theta_start, delta_theta_0, delta_theta_min) with dyadic values "
         "(exact comparison with the Gallina loop) and non-dyadic values (trace judged by the Coq "
@@ -391,10 +391,12 @@ def gp_homotopy_cases(ctx):
                [True, True, True, False, False]]
     for _ in range(ctx.n(3, 40)):
         scripts.append([ctx.rng.random() < 0.7 for _ in range(8)])
+    runs = []
     for sc in scripts:
         sc = [True, True] + sc[2:]          # the first homotopy step succeeds
         try:
             ret, log = gp_homotopy_run(sc)
+            runs.append((sc, ret, log))
         except Exception as e:  # noqa: BLE001
             ctx.violation("homotopy/gp-run-exception", {"script": sc, "error": "%s: %s" % (type(e).__name__, str(e)[:200])}, no_input=True,
                           what="homotopy over goal programming raised %s" % type(e).__name__)
@@ -416,6 +418,18 @@ def gp_homotopy_cases(ctx):
             step_ok = step_ok and e["ok"]
             if e["priority"] == 2 and step_ok:
                 accepted = float(k + 1)
+    # the same scripts through the Gallina model of the nested loop (HomotopyGp.v): identical traces
+    vals = core.eval_terms(ID + "gp", ["Homotopy", "HomotopyGp"],
+                           ["grun_case 0 1 (1 # 100) 2%%nat %s" % glist(sc, gbool) for sc, _, _ in runs]) if runs else []
+    for (sc, ret, log), v in zip(runs, vals):
+        impl = [2 if ret is None else (1 if ret else 0), len(log)]
+        for e in log:
+            th = Fraction(e["theta"])
+            impl += [th.numerator, th.denominator, e["priority"] - 1, 1 if e["ok"] else 0, int(round(e["x0"]))]
+        if impl != list(v):
+            ctx.violation("homotopy/gp-model-mismatch", {"script": sc, "log": log, "returned": ret, "model": list(v),
+                                                         "broken_correspondence": "HomotopyGp.grun vs HomotopyMixin over GoalProgrammingMixin; C18_gp_* no longer apply"},
+                          no_input=True, what="the nested homotopy / goal-programming loop differs from HomotopyGp.v")
 
 
 _run_core_gp = run
